@@ -12,14 +12,14 @@ Layers (mirroring the Go functions)
 * `scanNumber` — model of the dependency `parse.Number` (longest number lexeme; `1.` yields `1`).
 * `scan` — the loop of `ShortenPathData`: separators, command letters (a repeated identical letter
   other than `M`/`m` is skipped, i.e. continues the instruction), single-character arc flags at
-  argument positions 3, 4 (mod 7) of `A`/`a`, number lexemes, any other byte skipped; a bad flag
-  sets `cmd = 0`.
+  argument positions 3, 4 (mod 7) of `A`/`a`, number lexemes, any other byte skipped; a bad flag or `1.e5`
+  stops the scan: the rest of the input from the current instruction's letter is kept verbatim.
 * `PState`, `emitCmd`, `copyNumber`, `copyFlag`, `emitGroup` — the separator-elision printer
   (`prevDigit`, `prevDigitIsInt`, `prevFlag`; the `.0` trick; the trailing `00` → `e2` rewrite of
   plain integers; a letter is printed unless equal to the previous one or `L` after `M` / `l` after `m`).
 * `groupStep` — one iteration of the loop of `copyInstruction`: new cursor, C→S, Q→T, degenerate
   curve → line, L→H/V, zero-length L removal, control-point state (`NaN` = `none`; **not** reset by
-  closepath, as in the code), current and alternative (absolute ↔ relative) candidates, shortest
+  closepath), current and alternative (absolute ↔ relative) candidates, shortest
   choice (ties → current).
 * `copyInstr`, `run`, `shorten` — `copyInstruction` per instruction (arity checks: an instruction whose
   coordinate count is not a multiple of the arity is dropped), the 100 000-byte cut-off, the `cmd == 0`
@@ -91,8 +91,10 @@ structure ScanSt where
   coords : List Coord := []
   /-- finished instructions, reversed -/
   done : List Instr := []
-  /-- a bad arc flag was seen (the Go code then may return a half-rewritten buffer: outside the modelled domain) -/
-  bad : Bool := false
+  /-- the input from the command letter of the instruction being read (Go `b[start:]`) -/
+  start : List Char := []
+  /-- bad format met (bad arc flag, or `1.e5`): the rest of the input from `start` is kept verbatim -/
+  bail : Option (List Char) := none
 
 def isSep (c : Char) : Bool := c == ' ' || c == ',' || c == '\n' || c == '\r' || c == '\t'
 
@@ -112,26 +114,39 @@ def scanGo : Nat → ScanSt → List Char → ScanSt
         | some kr => if st.cmd.isNone || st.cmd != some kr || kr.1 == .M then some kr else none
         | none => none
       match newCmd with
-      | some kr => scanGo f { st with cmd := some kr, coords := [], done := flush st } r
+      | some kr => scanGo f { st with cmd := some kr, coords := [], done := flush st, start := c :: r } r
       | none =>
         let isA := match st.cmd with | some (.A, _) => true | _ => false
         if isA && (st.coords.length % 7 == 3 || st.coords.length % 7 == 4) then
           if c == '1' then scanGo f { st with coords := { lx := ['1'], v := 1 } :: st.coords } r
           else if c == '0' then scanGo f { st with coords := { lx := ['0'], v := 0 } :: st.coords } r
-          else scanGo f { st with cmd := none, bad := true } r
+          else { st with bail := some st.start }
         else
           let n := scanNumber (c :: r)
           if n > 0 then
             let lx := (c :: r).take n
             scanGo f { st with coords := { lx := lx, v := numVal lx } :: st.coords } ((c :: r).drop n)
+          else if c == '.' && st.cmd.isSome && (match r with | e :: _ => e == 'e' || e == 'E' | [] => false) then
+            { st with bail := some st.start }
           else scanGo f st r
 
-/-- the instructions of a path data string; `none` = `cmd == 0` at the end (bail-out) -/
-def scan (d : List Char) : Option (List Instr) :=
+/-- result of the scanner: the complete instructions, the verbatim tail after a bad format (else empty), and the
+    command that follows the last complete instruction (the one being read when the scan bailed out) -/
+structure ScanRes where
+  instrs : List Instr
+  tail : List Char := []
+  lastNext : Option Kind := none
+  deriving Repr, DecidableEq
+
+/-- `none` = no command at all (`cmd == 0` at the end: the input is returned) -/
+def scan (d : List Char) : Option ScanRes :=
   let st := scanGo (d.length + 1) {} d
-  match st.cmd with
-  | none => none
-  | some _ => some (flush st).reverse
+  match st.bail with
+  | some t => some { instrs := st.done.reverse, tail := t, lastNext := st.cmd.map (·.1) }
+  | none =>
+    match st.cmd with
+    | none => none
+    | some _ => some { instrs := (flush st).reverse }
 
 /-! ## printer -/
 
@@ -414,9 +429,14 @@ def groupStep (P : NumPr) (st : MSt) (k0 : Kind) (rel : Bool) (first single : Bo
 
 def isCurveKind (k : Kind) : Bool := k == .C || k == .S || k == .Q || k == .T
 
-/-- look-ahead of `copyInstruction`: `last` = this is the last group of the instruction, `next` = kind of
-    the following instruction.  The code as it is now does not look ahead. -/
-def ctxOf (_ps : PState) (_k0 : Kind) (_last : Bool) (_next : Option Kind) : Ctx := {}
+/-- look-ahead of `copyInstruction` (`p.next`): `last` = this is the last group of the instruction,
+    `next` = kind of the following instruction; within an instruction the next group has the instruction's kind
+    (L after the first pair of a moveto).  `ps.cmd` is the last printed command. -/
+def ctxOf (ps : PState) (k0 : Kind) (last : Bool) (next : Option Kind) : Ctx :=
+  let next' : Option Kind := if last then next else some (groupKind k0 false)
+  let nextCurve := match next' with | some k => isCurveKind k | none => false
+  let prevCurve := match ps.cmd with | some (k, _) => isCurveKind k | none => false
+  { nextS := last && next == some .S, nextT := last && next == some .T, keepZero := nextCurve && prevCurve }
 
 /-- split into chunks of `di` (the caller has checked divisibility) -/
 def chunks (di : Nat) : Nat → List Coord → List (List Coord)
@@ -448,22 +468,24 @@ def copyInstr (P : NumPr) (st : MSt) (ins : Instr) (next : Option Kind := none) 
   let n := ins.cs.length
   if n == 0 then
     if ins.k == .Z then
-      ({ st with x := st.x0, y := st.y0, ps := (emitGroup st.ps zGroup).1 }, [zGroup])
+      ({ st with x := st.x0, y := st.y0, c := none, q := none, ps := (emitGroup st.ps zGroup).1 }, [zGroup])
     else (st, [])
   else
     match instrArity ins.k n with
     | none => (st, [])
     | some di => groupLoop P ins.k ins.rel (n == di) next st true (chunks di n ins.cs)
 
-def runInstrs (P : NumPr) : MSt → List Instr → MSt × List OutGroup
+/-- `final` = command following the last instruction (`none` at the end of the input) -/
+def runInstrs (P : NumPr) (final : Option Kind) : MSt → List Instr → MSt × List OutGroup
   | st, [] => (st, [])
   | st, i :: r =>
-    let a := copyInstr P st i (r.head?.map (·.k))
-    let b := runInstrs P a.1 r
+    let a := copyInstr P st i (match r with | j :: _ => some j.k | [] => final)
+    let b := runInstrs P final a.1 r
     (b.1, a.2 ++ b.2)
 
 /-- the groups `ShortenPathData` prints for the instruction list -/
-def groupsOfInstrs (P : NumPr) (is : List Instr) : List OutGroup := (runInstrs P {} is).2
+def groupsOfInstrs (P : NumPr) (is : List Instr) (final : Option Kind := none) : List OutGroup :=
+  (runInstrs P final {} is).2
 
 def maxLen : Nat := 100000
 
@@ -472,13 +494,9 @@ def shortenWith (P : NumPr) (d : List Char) : List Char :=
   if maxLen < d.length then d else
   match scan d with
   | none => d
-  | some is => renderGroups (groupsOfInstrs P is)
+  | some r => renderGroups (groupsOfInstrs P r.instrs r.lastNext) ++ r.tail
 
 /-- `svg.Minify` path data (Precision 0 → newPrecision 15) -/
 def shorten (d : List Char) : List Char := shortenWith (goPr 0 15) d
-
-/-- the bad-flag bail-out may hand back a partially rewritten buffer: outside the modelled domain -/
-def inDomain (d : List Char) : Bool :=
-  d.length ≤ maxLen && !(scanGo (d.length + 1) {} d).bad
 
 end Verif.Model.SvgPath
